@@ -1972,7 +1972,9 @@ func signExtendAmount(p *Program, r *Report) {
 				r.Unresolved("%s: the amount subtracted for the sign extension (%s) is not interpretable: %s", u.Name, exprStr(amount), strings.Join(se.unsup, "; "))
 				return true
 			}
-			r.Check(v.t.String() == want.String(), as, u.Name+": sign extension subtracts 2^(8*len)", v.t.String(),
+			// on 32-bit targets the shift amount is computed in 32 bits and widened: the same value for L <= 8
+			want32 := mk("shl", tConst(1), mkExt("zext", 32, mk("mul", L, tConst(8))))
+			r.Check(v.t.String() == want.String() || v.t.String() == want32.String(), as, u.Name+": sign extension subtracts 2^(8*len)", v.t.String(),
 				"the sign extension subtracts "+v.t.String()+" (L = len("+dataObj.Name()+")) instead of "+want.String()+": negative values shorter than 8 bytes decode to wrong numbers")
 			return true
 		})
